@@ -3,6 +3,8 @@ import Rtsp.Proofs.Life.Inv
 `Server.wg` counts exactly the goroutines that are still alive (`wg = live`), hence `wg.Wait()` returns
 exactly when everything has finished.
 -/
+set_option linter.unusedVariables false
+
 namespace Rtsp.Life
 
 variable {st st' : State} {e : Option Event} {c s : Nat}
@@ -108,164 +110,264 @@ theorem live_setSess_phase (v : Sess) (hs : s < st.nSess) (h : v.phase = (st.ses
   simp [b2n, sessLive, h] at this
   omega
 
-theorem WgInv.step {a : Action} (hi : Inv st) (hw : WgInv st) (h : step st a = some (st', e)) : WgInv st' := by
+theorem wg_closeCall {st st' : State} {e : Option Event} (hi : Inv st) (hw : WgInv st)
+    (h : step st .closeCall = some (st', e)) : WgInv st' := by
   obtain ⟨hwg, hrd⟩ := hw
+  obtain ⟨hg, rfl, rfl⟩ := step_closeCall h
+  exact ⟨hwg, fun hr => ⟨rfl, (hrd hr).2⟩⟩
+
+theorem wg_closeReturn {st st' : State} {e : Option Event} (hi : Inv st) (hw : WgInv st)
+    (h : step st .closeReturn = some (st', e)) : WgInv st' := by
+  obtain ⟨hwg, hrd⟩ := hw
+  obtain ⟨hg, rfl, rfl⟩ := step_closeReturn h
+  exact ⟨hwg, fun _ => ⟨hg.1, hg.2.2⟩⟩
+
+theorem wg_srvExit {st st' : State} {e : Option Event} (hi : Inv st) (hw : WgInv st)
+    (h : step st .srvExit = some (st', e)) : WgInv st' := by
+  obtain ⟨hwg, hrd⟩ := hw
+  obtain ⟨hg, rfl, rfl⟩ := step_srvExit h
+  have hl : live { st with srvRunning := false, wg := st.wg - 1 } + 1 = live st := by
+    simp [live, hg.1]
+    omega
+  refine ⟨by show st.wg - 1 = _; omega, fun hr => ?_⟩
+  have := hrd hr; exact ⟨this.1, by show st.wg - 1 = 0; omega⟩
+
+theorem wg_lnExit {st st' : State} {e : Option Event} (hi : Inv st) (hw : WgInv st)
+    (h : step st .lnExit = some (st', e)) : WgInv st' := by
+  obtain ⟨hwg, hrd⟩ := hw
+  obtain ⟨hg, rfl, rfl⟩ := step_lnExit h
+  have hl : live { st with lnRunning := false, wg := st.wg - 1 } + 1 = live st := by
+    simp [live, hg.1]
+    omega
+  refine ⟨by show st.wg - 1 = _; omega, fun hr => ?_⟩
+  have := hrd hr; exact ⟨this.1, by show st.wg - 1 = 0; omega⟩
+
+theorem wg_accept {st st' : State} {e : Option Event} (hi : Inv st) (hw : WgInv st)
+    (h : step st .accept = some (st', e)) : WgInv st' := by
+  obtain ⟨hwg, hrd⟩ := hw
+  obtain ⟨hg, rfl, rfl⟩ := step_accept h
+  have hl : live { (st.setConn st.nConns { phase := .spawned }) with nConns := st.nConns + 1, wg := st.wg + 1 }
+      = live st + 1 := by
+    have h1 : cnt st.nConns (connLive (st.setConn st.nConns { phase := .spawned }).conn) = cnt st.nConns (connLive st.conn) :=
+      cnt_congr (fun i hi => by
+        have : i ≠ st.nConns := by omega
+        simp [connLive, setConn_conn, this])
+    have h3 : connLive (st.setConn st.nConns { phase := .spawned }).conn st.nConns = true := by simp [connLive]
+    simp only [live, cnt, h1, h3, setConn_sess]
+    simp
+    omega
+  refine ⟨by show st.wg + 1 = _; omega, fun hr => ?_⟩
+  have := hrd hr
+  have hl0 : live st = 0 := by omega
+  have := (live_zero_iff.mp hl0).2.1
+  simp [hg.1] at this
+
+theorem wg_connOpenCb {c : Nat} {st st' : State} {e : Option Event} (hi : Inv st) (hw : WgInv st)
+    (h : step st (.connOpenCb c) = some (st', e)) : WgInv st' := by
+  obtain ⟨hwg, hrd⟩ := hw
+  obtain ⟨hg, rfl, rfl⟩ := step_connOpenCb h
+  have hc : c < st.nConns := hi.conn_lt (by simp [hg])
+  have := live_setConn_same (st := st) { st.conn c with phase := .running, reader := true } hc (by simp [hg]) (by simp)
+  exact ⟨by simpa [this] using hwg, by simpa using hrd⟩
+
+theorem wg_request {c : Nat} {st st' : State} {e : Option Event} (hi : Inv st) (hw : WgInv st)
+    (h : step st (.request c) = some (st', e)) : WgInv st' := by
+  obtain ⟨hwg, hrd⟩ := hw
+  obtain ⟨hg, rfl, rfl⟩ := step_request h
+  exact ⟨hwg, hrd⟩
+
+theorem wg_createSess {c : Nat} {st st' : State} {e : Option Event} (hi : Inv st) (hw : WgInv st)
+    (h : step st (.createSess c) = some (st', e)) : WgInv st' := by
+  obtain ⟨hwg, hrd⟩ := hw
+  obtain ⟨hg, rfl, rfl⟩ := step_createSess h
+  have hl : live { (st.setSess st.nSess { phase := .spawned, author := c, conns := [c] }) with
+      nSess := st.nSess + 1, wg := st.wg + 1 } = live st + 1 := by
+    have h1 : cnt st.nSess (sessLive (st.setSess st.nSess { phase := .spawned, author := c, conns := [c] }).sess)
+        = cnt st.nSess (sessLive st.sess) :=
+      cnt_congr (fun i hi => by
+        have : i ≠ st.nSess := by omega
+        simp [sessLive, setSess_sess, this])
+    have h3 : sessLive (st.setSess st.nSess { phase := .spawned, author := c, conns := [c] }).sess st.nSess = true := by
+      simp [sessLive]
+    simp only [live, cnt, h1, h3, setSess_conn]
+    simp
+    omega
+  refine ⟨by show st.wg + 1 = _; omega, fun hr => ?_⟩
+  have := hrd hr
+  have hl0 : live st = 0 := by omega
+  have := (live_zero_iff.mp hl0).1
+  simp [hg.2.2.2] at this
+
+theorem wg_connExit {c : Nat} {st st' : State} {e : Option Event} (hi : Inv st) (hw : WgInv st)
+    (h : step st (.connExit c) = some (st', e)) : WgInv st' := by
+  obtain ⟨hwg, hrd⟩ := hw
+  obtain ⟨hg, rfl, rfl⟩ := step_connExit h
+  have hc : c < st.nConns := hi.conn_lt (by simp [hg.1])
+  have := live_setConn_same (st := st) { st.conn c with phase := .stopping, cancelled := true } hc (by simp [hg.1]) (by simp)
+  exact ⟨by simpa [this] using hwg, by simpa using hrd⟩
+
+theorem wg_connFail {c : Nat} {st st' : State} {e : Option Event} (hi : Inv st) (hw : WgInv st)
+    (h : step st (.connFail c) = some (st', e)) : WgInv st' := by
+  obtain ⟨hwg, hrd⟩ := hw
+  obtain ⟨hg, rfl, rfl⟩ := step_connFail h
+  have hc : c < st.nConns := hi.conn_lt (by simp [hg])
+  have := live_setConn_same (st := st) { st.conn c with phase := .stopping, cancelled := true } hc (by simp [hg]) (by simp)
+  exact ⟨by simpa [this] using hwg, by simpa using hrd⟩
+
+theorem wg_readerExit {c : Nat} {st st' : State} {e : Option Event} (hi : Inv st) (hw : WgInv st)
+    (h : step st (.readerExit c) = some (st', e)) : WgInv st' := by
+  obtain ⟨hwg, hrd⟩ := hw
+  obtain ⟨hg, rfl, rfl⟩ := step_readerExit h
+  have hc : c < st.nConns := hi.conn_lt (by simp [hg.2])
+  have := live_setConn_phase (st := st) { st.conn c with reader := false, tcp := false } hc rfl
+  exact ⟨by simpa [this] using hwg, by simpa using hrd⟩
+
+theorem wg_readerFail {c : Nat} {st st' : State} {e : Option Event} (hi : Inv st) (hw : WgInv st)
+    (h : step st (.readerFail c) = some (st', e)) : WgInv st' := by
+  obtain ⟨hwg, hrd⟩ := hw
+  obtain ⟨hg, rfl, rfl⟩ := step_readerFail h
+  have hc : c < st.nConns := hi.conn_lt_of_reader hg
+  have := live_setConn_phase (st := st) { st.conn c with reader := false, tcp := false } hc rfl
+  exact ⟨by simpa [this] using hwg, by simpa using hrd⟩
+
+theorem wg_connJoin {c : Nat} {st st' : State} {e : Option Event} (hi : Inv st) (hw : WgInv st)
+    (h : step st (.connJoin c) = some (st', e)) : WgInv st' := by
+  obtain ⟨hwg, hrd⟩ := hw
+  obtain ⟨hg, rfl, rfl⟩ := step_connJoin h
+  have hc : c < st.nConns := hi.conn_lt (by simp [hg.1])
+  have := live_setConn_same (st := st) { st.conn c with phase := .joined } hc (by simp [hg.1]) (by simp)
+  exact ⟨by simpa [this] using hwg, by simpa using hrd⟩
+
+theorem wg_removeConn {c : Nat} {st st' : State} {e : Option Event} (hi : Inv st) (hw : WgInv st)
+    (h : step st (.removeConn c) = some (st', e)) : WgInv st' := by
+  obtain ⟨hwg, hrd⟩ := hw
+  obtain ⟨s, hs, hp, hr, rfl, rfl⟩ := step_removeConn h
+  have hs' : s < st.nSess := hi.sess_lt (by simp [hr])
+  have := live_setSess_phase (st := st) { st.sess s with conns := (st.sess s).conns.erase c } hs' rfl
+  exact ⟨by simpa [this] using hwg, by simpa using hrd⟩
+
+theorem wg_connCloseCb {c : Nat} {st st' : State} {e : Option Event} (hi : Inv st) (hw : WgInv st)
+    (h : step st (.connCloseCb c) = some (st', e)) : WgInv st' := by
+  obtain ⟨hwg, hrd⟩ := hw
+  obtain ⟨hg, rfl, rfl⟩ := step_connCloseCb h
+  have hc : c < st.nConns := hi.conn_lt (by simp [hg])
+  have h1 := live_setConn_close (st := st) { st.conn c with phase := .closed } hc (by simp [hg]) rfl
+  have hl : live { (st.setConn c { st.conn c with phase := .closed }) with wg := st.wg - 1 }
+      = live (st.setConn c { st.conn c with phase := .closed }) := rfl
+  refine ⟨by show st.wg - 1 = _; rw [hl]; omega, fun hr => ?_⟩
+  have := hrd hr; exact ⟨this.1, by show st.wg - 1 = 0; omega⟩
+
+theorem wg_cancelConn {c : Nat} {st st' : State} {e : Option Event} (hi : Inv st) (hw : WgInv st)
+    (h : step st (.cancelConn c) = some (st', e)) : WgInv st' := by
+  obtain ⟨hwg, hrd⟩ := hw
+  obtain ⟨hg, rfl, rfl⟩ := step_cancelConn h
+  have hc : c < st.nConns := hi.conn_lt hg
+  have := live_setConn_phase (st := st) { st.conn c with cancelled := true } hc rfl
+  exact ⟨by simpa [this] using hwg, by simpa using hrd⟩
+
+theorem wg_pktTcp {c : Nat} {st st' : State} {e : Option Event} (hi : Inv st) (hw : WgInv st)
+    (h : step st (.pktTcp c) = some (st', e)) : WgInv st' := by
+  obtain ⟨hwg, hrd⟩ := hw
+  obtain ⟨s, _, _, _, rfl, rfl⟩ := step_pktTcp h
+  exact ⟨hwg, hrd⟩
+
+theorem wg_sessOpenCb {s : Nat} {st st' : State} {e : Option Event} (hi : Inv st) (hw : WgInv st)
+    (h : step st (.sessOpenCb s) = some (st', e)) : WgInv st' := by
+  obtain ⟨hwg, hrd⟩ := hw
+  obtain ⟨hg, rfl, rfl⟩ := step_sessOpenCb h
+  have hs : s < st.nSess := hi.sess_lt (by simp [hg])
+  have := live_setSess_same (st := st) { st.sess s with phase := .running } hs (by simp [hg]) (by simp)
+  exact ⟨by simpa [this] using hwg, by simpa using hrd⟩
+
+theorem wg_sreq {s c : Nat} {k : ReqKind} {st st' : State} {e : Option Event} (hi : Inv st) (hw : WgInv st)
+    (h : step st (.sreq s c k) = some (st', e)) : WgInv st' := by
+  obtain ⟨hwg, hrd⟩ := hw
+  obtain ⟨hg, rfl, rfl⟩ := step_sreq h
+  have hc : c < st.nConns := hi.conn_lt (by simp [hg.2.1])
+  have hs : s < st.nSess := hi.sess_lt (by simp [hg.1])
+  have h1 : live (st.setConn c (reqConn k s (st.conn c))) = live st :=
+    live_setConn_phase _ hc (by cases k <;> rfl)
+  have h2 : live ((st.setConn c (reqConn k s (st.conn c))).setSess s (reqSess k c (st.sess s)))
+      = live (st.setConn c (reqConn k s (st.conn c))) :=
+    live_setSess_same _ (by simpa using hs) (by simp [hg.1]) (by cases k <;> simp [reqSess, hg.1])
+  exact ⟨by simpa [h1, h2] using hwg, by simpa using hrd⟩
+
+theorem wg_pktUdp {s : Nat} {st st' : State} {e : Option Event} (hi : Inv st) (hw : WgInv st)
+    (h : step st (.pktUdp s) = some (st', e)) : WgInv st' := by
+  obtain ⟨hwg, hrd⟩ := hw
+  obtain ⟨hg, rfl, rfl⟩ := step_pktUdp h
+  exact ⟨hwg, hrd⟩
+
+theorem wg_sessExit {s : Nat} {st st' : State} {e : Option Event} (hi : Inv st) (hw : WgInv st)
+    (h : step st (.sessExit s) = some (st', e)) : WgInv st' := by
+  obtain ⟨hwg, hrd⟩ := hw
+  obtain ⟨hg, rfl, rfl⟩ := step_sessExit h
+  have hs : s < st.nSess := hi.sess_lt (by simp [hg.1])
+  have := live_setSess_same (st := st) { st.sess s with phase := .stopping, cancelled := true } hs (by simp [hg.1]) (by simp)
+  exact ⟨by simpa [this] using hwg, by simpa using hrd⟩
+
+theorem wg_sessFail {s : Nat} {st st' : State} {e : Option Event} (hi : Inv st) (hw : WgInv st)
+    (h : step st (.sessFail s) = some (st', e)) : WgInv st' := by
+  obtain ⟨hwg, hrd⟩ := hw
+  obtain ⟨hg, rfl, rfl⟩ := step_sessFail h
+  have hs : s < st.nSess := hi.sess_lt (by simp [hg])
+  have := live_setSess_same (st := st) { st.sess s with phase := .stopping, cancelled := true } hs (by simp [hg]) (by simp)
+  exact ⟨by simpa [this] using hwg, by simpa using hrd⟩
+
+theorem wg_sessCancelConn {s c : Nat} {st st' : State} {e : Option Event} (hi : Inv st) (hw : WgInv st)
+    (h : step st (.sessCancelConn s c) = some (st', e)) : WgInv st' := by
+  obtain ⟨hwg, hrd⟩ := hw
+  obtain ⟨hg, rfl, rfl⟩ := step_sessCancelConn h
+  have hc : c < st.nConns := hi.connsBound s c hg.2.1
+  have := live_setConn_phase (st := st) { st.conn c with cancelled := true } hc rfl
+  exact ⟨by simpa [this] using hwg, by simpa using hrd⟩
+
+theorem wg_sessCloseCb {s : Nat} {st st' : State} {e : Option Event} (hi : Inv st) (hw : WgInv st)
+    (h : step st (.sessCloseCb s) = some (st', e)) : WgInv st' := by
+  obtain ⟨hwg, hrd⟩ := hw
+  obtain ⟨hg, rfl, rfl⟩ := step_sessCloseCb h
+  have hs : s < st.nSess := hi.sess_lt (by simp [hg.1])
+  have h1 := live_setSess_close (st := st) { st.sess s with phase := .closed, udp := false } hs (by simp [hg.1]) rfl
+  have hl : live { (st.setSess s { st.sess s with phase := .closed, udp := false }) with wg := st.wg - 1 }
+      = live (st.setSess s { st.sess s with phase := .closed, udp := false }) := rfl
+  refine ⟨by show st.wg - 1 = _; rw [hl]; omega, fun hr => ?_⟩
+  have := hrd hr; exact ⟨this.1, by show st.wg - 1 = 0; omega⟩
+
+theorem wg_cancelSess {s : Nat} {st st' : State} {e : Option Event} (hi : Inv st) (hw : WgInv st)
+    (h : step st (.cancelSess s) = some (st', e)) : WgInv st' := by
+  obtain ⟨hwg, hrd⟩ := hw
+  obtain ⟨hg, rfl, rfl⟩ := step_cancelSess h
+  have hs : s < st.nSess := hi.sess_lt hg
+  have := live_setSess_phase (st := st) { st.sess s with cancelled := true } hs rfl
+  exact ⟨by simpa [this] using hwg, by simpa using hrd⟩
+
+/-- every action preserves the WaitGroup invariant -/
+theorem WgInv.step {a : Action} (hi : Inv st) (hw : WgInv st) (h : step st a = some (st', e)) : WgInv st' := by
   cases a with
-  | closeCall =>
-    obtain ⟨hg, rfl, rfl⟩ := step_closeCall h
-    exact ⟨hwg, fun hr => ⟨rfl, (hrd hr).2⟩⟩
-  | closeReturn =>
-    obtain ⟨hg, rfl, rfl⟩ := step_closeReturn h
-    exact ⟨hwg, fun _ => ⟨hg.1, hg.2.2⟩⟩
-  | srvExit =>
-    obtain ⟨hg, rfl, rfl⟩ := step_srvExit h
-    have hl : live { st with srvRunning := false, wg := st.wg - 1 } + 1 = live st := by
-      simp [live, hg.1]
-      omega
-    refine ⟨by show st.wg - 1 = _; omega, fun hr => ?_⟩
-    have := hrd hr; exact ⟨this.1, by show st.wg - 1 = 0; omega⟩
-  | lnExit =>
-    obtain ⟨hg, rfl, rfl⟩ := step_lnExit h
-    have hl : live { st with lnRunning := false, wg := st.wg - 1 } + 1 = live st := by
-      simp [live, hg.1]
-      omega
-    refine ⟨by show st.wg - 1 = _; omega, fun hr => ?_⟩
-    have := hrd hr; exact ⟨this.1, by show st.wg - 1 = 0; omega⟩
-  | accept =>
-    obtain ⟨hg, rfl, rfl⟩ := step_accept h
-    have hl : live { (st.setConn st.nConns { phase := .spawned }) with nConns := st.nConns + 1, wg := st.wg + 1 }
-        = live st + 1 := by
-      have h1 : cnt st.nConns (connLive (st.setConn st.nConns { phase := .spawned }).conn) = cnt st.nConns (connLive st.conn) :=
-        cnt_congr (fun i hi => by
-          have : i ≠ st.nConns := by omega
-          simp [connLive, setConn_conn, this])
-      have h3 : connLive (st.setConn st.nConns { phase := .spawned }).conn st.nConns = true := by simp [connLive]
-      simp only [live, cnt, h1, h3, setConn_sess]
-      simp
-      omega
-    refine ⟨by show st.wg + 1 = _; omega, fun hr => ?_⟩
-    have := hrd hr
-    have hl0 : live st = 0 := by omega
-    have := (live_zero_iff.mp hl0).2.1
-    simp [hg.1] at this
-  | connOpenCb c =>
-    obtain ⟨hg, rfl, rfl⟩ := step_connOpenCb h
-    have hc : c < st.nConns := hi.conn_lt (by simp [hg])
-    have := live_setConn_same (st := st) { st.conn c with phase := .running, reader := true } hc (by simp [hg]) (by simp)
-    exact ⟨by simpa [this] using hwg, by simpa using hrd⟩
-  | request c =>
-    obtain ⟨hg, rfl, rfl⟩ := step_request h
-    exact ⟨hwg, hrd⟩
-  | createSess c =>
-    obtain ⟨hg, rfl, rfl⟩ := step_createSess h
-    have hl : live { (st.setSess st.nSess { phase := .spawned, author := c, conns := [c] }) with
-        nSess := st.nSess + 1, wg := st.wg + 1 } = live st + 1 := by
-      have h1 : cnt st.nSess (sessLive (st.setSess st.nSess { phase := .spawned, author := c, conns := [c] }).sess)
-          = cnt st.nSess (sessLive st.sess) :=
-        cnt_congr (fun i hi => by
-          have : i ≠ st.nSess := by omega
-          simp [sessLive, setSess_sess, this])
-      have h3 : sessLive (st.setSess st.nSess { phase := .spawned, author := c, conns := [c] }).sess st.nSess = true := by
-        simp [sessLive]
-      simp only [live, cnt, h1, h3, setSess_conn]
-      simp
-      omega
-    refine ⟨by show st.wg + 1 = _; omega, fun hr => ?_⟩
-    have := hrd hr
-    have hl0 : live st = 0 := by omega
-    have := (live_zero_iff.mp hl0).1
-    simp [hg.2.2.2] at this
-  | connExit c =>
-    obtain ⟨hg, rfl, rfl⟩ := step_connExit h
-    have hc : c < st.nConns := hi.conn_lt (by simp [hg.1])
-    have := live_setConn_same (st := st) { st.conn c with phase := .stopping, cancelled := true } hc (by simp [hg.1]) (by simp)
-    exact ⟨by simpa [this] using hwg, by simpa using hrd⟩
-  | connFail c =>
-    obtain ⟨hg, rfl, rfl⟩ := step_connFail h
-    have hc : c < st.nConns := hi.conn_lt (by simp [hg])
-    have := live_setConn_same (st := st) { st.conn c with phase := .stopping, cancelled := true } hc (by simp [hg]) (by simp)
-    exact ⟨by simpa [this] using hwg, by simpa using hrd⟩
-  | readerExit c =>
-    obtain ⟨hg, rfl, rfl⟩ := step_readerExit h
-    have hc : c < st.nConns := hi.conn_lt (by simp [hg.2])
-    have := live_setConn_phase (st := st) { st.conn c with reader := false, tcp := false } hc rfl
-    exact ⟨by simpa [this] using hwg, by simpa using hrd⟩
-  | readerFail c =>
-    obtain ⟨hg, rfl, rfl⟩ := step_readerFail h
-    have hc : c < st.nConns := hi.conn_lt_of_reader hg
-    have := live_setConn_phase (st := st) { st.conn c with reader := false, tcp := false } hc rfl
-    exact ⟨by simpa [this] using hwg, by simpa using hrd⟩
-  | connJoin c =>
-    obtain ⟨hg, rfl, rfl⟩ := step_connJoin h
-    have hc : c < st.nConns := hi.conn_lt (by simp [hg.1])
-    have := live_setConn_same (st := st) { st.conn c with phase := .joined } hc (by simp [hg.1]) (by simp)
-    exact ⟨by simpa [this] using hwg, by simpa using hrd⟩
-  | removeConn c =>
-    obtain ⟨s, hs, hp, hr, rfl, rfl⟩ := step_removeConn h
-    have hs' : s < st.nSess := hi.sess_lt (by simp [hr])
-    have := live_setSess_phase (st := st) { st.sess s with conns := (st.sess s).conns.erase c } hs' rfl
-    exact ⟨by simpa [this] using hwg, by simpa using hrd⟩
-  | connCloseCb c =>
-    obtain ⟨hg, rfl, rfl⟩ := step_connCloseCb h
-    have hc : c < st.nConns := hi.conn_lt (by simp [hg])
-    have h1 := live_setConn_close (st := st) { st.conn c with phase := .closed } hc (by simp [hg]) rfl
-    have hl : live { (st.setConn c { st.conn c with phase := .closed }) with wg := st.wg - 1 }
-        = live (st.setConn c { st.conn c with phase := .closed }) := rfl
-    refine ⟨by show st.wg - 1 = _; rw [hl]; omega, fun hr => ?_⟩
-    have := hrd hr; exact ⟨this.1, by show st.wg - 1 = 0; omega⟩
-  | cancelConn c =>
-    obtain ⟨hg, rfl, rfl⟩ := step_cancelConn h
-    have hc : c < st.nConns := hi.conn_lt hg
-    have := live_setConn_phase (st := st) { st.conn c with cancelled := true } hc rfl
-    exact ⟨by simpa [this] using hwg, by simpa using hrd⟩
-  | pktTcp c =>
-    obtain ⟨s, _, _, _, rfl, rfl⟩ := step_pktTcp h
-    exact ⟨hwg, hrd⟩
-  | sessOpenCb s =>
-    obtain ⟨hg, rfl, rfl⟩ := step_sessOpenCb h
-    have hs : s < st.nSess := hi.sess_lt (by simp [hg])
-    have := live_setSess_same (st := st) { st.sess s with phase := .running } hs (by simp [hg]) (by simp)
-    exact ⟨by simpa [this] using hwg, by simpa using hrd⟩
-  | sreq s c k =>
-    obtain ⟨hg, rfl, rfl⟩ := step_sreq h
-    have hc : c < st.nConns := hi.conn_lt (by simp [hg.2.1])
-    have hs : s < st.nSess := hi.sess_lt (by simp [hg.1])
-    have h1 : live (st.setConn c (reqConn k s (st.conn c))) = live st :=
-      live_setConn_phase _ hc (by cases k <;> rfl)
-    have h2 : live ((st.setConn c (reqConn k s (st.conn c))).setSess s (reqSess k c (st.sess s)))
-        = live (st.setConn c (reqConn k s (st.conn c))) :=
-      live_setSess_same _ (by simpa using hs) (by simp [hg.1]) (by cases k <;> simp [reqSess, hg.1])
-    exact ⟨by simpa [h1, h2] using hwg, by simpa using hrd⟩
-  | pktUdp s =>
-    obtain ⟨hg, rfl, rfl⟩ := step_pktUdp h
-    exact ⟨hwg, hrd⟩
-  | sessExit s =>
-    obtain ⟨hg, rfl, rfl⟩ := step_sessExit h
-    have hs : s < st.nSess := hi.sess_lt (by simp [hg.1])
-    have := live_setSess_same (st := st) { st.sess s with phase := .stopping, cancelled := true } hs (by simp [hg.1]) (by simp)
-    exact ⟨by simpa [this] using hwg, by simpa using hrd⟩
-  | sessFail s =>
-    obtain ⟨hg, rfl, rfl⟩ := step_sessFail h
-    have hs : s < st.nSess := hi.sess_lt (by simp [hg])
-    have := live_setSess_same (st := st) { st.sess s with phase := .stopping, cancelled := true } hs (by simp [hg]) (by simp)
-    exact ⟨by simpa [this] using hwg, by simpa using hrd⟩
-  | sessCancelConn s c =>
-    obtain ⟨hg, rfl, rfl⟩ := step_sessCancelConn h
-    have hc : c < st.nConns := hi.connsBound s c hg.2.1
-    have := live_setConn_phase (st := st) { st.conn c with cancelled := true } hc rfl
-    exact ⟨by simpa [this] using hwg, by simpa using hrd⟩
-  | sessCloseCb s =>
-    obtain ⟨hg, rfl, rfl⟩ := step_sessCloseCb h
-    have hs : s < st.nSess := hi.sess_lt (by simp [hg.1])
-    have h1 := live_setSess_close (st := st) { st.sess s with phase := .closed, udp := false } hs (by simp [hg.1]) rfl
-    have hl : live { (st.setSess s { st.sess s with phase := .closed, udp := false }) with wg := st.wg - 1 }
-        = live (st.setSess s { st.sess s with phase := .closed, udp := false }) := rfl
-    refine ⟨by show st.wg - 1 = _; rw [hl]; omega, fun hr => ?_⟩
-    have := hrd hr; exact ⟨this.1, by show st.wg - 1 = 0; omega⟩
-  | cancelSess s =>
-    obtain ⟨hg, rfl, rfl⟩ := step_cancelSess h
-    have hs : s < st.nSess := hi.sess_lt hg
-    have := live_setSess_phase (st := st) { st.sess s with cancelled := true } hs rfl
-    exact ⟨by simpa [this] using hwg, by simpa using hrd⟩
+  | closeCall => exact wg_closeCall hi hw h
+  | closeReturn => exact wg_closeReturn hi hw h
+  | srvExit => exact wg_srvExit hi hw h
+  | lnExit => exact wg_lnExit hi hw h
+  | accept => exact wg_accept hi hw h
+  | connOpenCb c => exact wg_connOpenCb hi hw h
+  | request c => exact wg_request hi hw h
+  | createSess c => exact wg_createSess hi hw h
+  | connExit c => exact wg_connExit hi hw h
+  | connFail c => exact wg_connFail hi hw h
+  | readerExit c => exact wg_readerExit hi hw h
+  | readerFail c => exact wg_readerFail hi hw h
+  | connJoin c => exact wg_connJoin hi hw h
+  | removeConn c => exact wg_removeConn hi hw h
+  | connCloseCb c => exact wg_connCloseCb hi hw h
+  | cancelConn c => exact wg_cancelConn hi hw h
+  | pktTcp c => exact wg_pktTcp hi hw h
+  | sessOpenCb s => exact wg_sessOpenCb hi hw h
+  | sreq s c k => exact wg_sreq hi hw h
+  | pktUdp s => exact wg_pktUdp hi hw h
+  | sessExit s => exact wg_sessExit hi hw h
+  | sessFail s => exact wg_sessFail hi hw h
+  | sessCancelConn s c => exact wg_sessCancelConn hi hw h
+  | sessCloseCb s => exact wg_sessCloseCb hi hw h
+  | cancelSess s => exact wg_cancelSess hi hw h
 
 end Rtsp.Life
